@@ -481,6 +481,25 @@ Section Handlers.
           end
       end.
 
+  (* graph.Builder.ApplyChannelUpdate: the SECOND entry point for channel
+     updates (payloads of onion failure messages of payment attempts).  The
+     channel is looked up (unknown or zombie: false), the update is validated
+     against the key its direction bit selects and the capacity
+     (netann.ValidateChannelUpdateAnn), then Builder.UpdateEdge; ErrIgnored /
+     ErrOutdated still answer true.  No chain-hash, zero-timestamp, skew,
+     reject-cache or rate-limit check on this path, nothing is relayed. *)
+  Definition apply_chan_upd (now : N) (st : state) (u : chan_upd) : state * bool :=
+    match alookup (cu_scid u) (s_edges st) with
+    | None => (st, false)
+    | Some e =>
+      if negb (upd_fields_ok (e_cap e) u) then (st, false)
+      else if negb (verify (key_dir e (dir_of (cu_cf u))) (cu_dg u) (cu_sig u)) then (st, false)
+      else match builder_update_edge now st (cu_scid u) (pol_of u) with
+           | inl st' => (st', true)
+           | inr _ => (st, true)
+           end
+    end.
+
   (* builder.assertNodeAnnFreshness *)
   Definition node_fresh (st : state) (n ts : N) : bool :=
     match alookup n (s_nodes st) with
@@ -541,6 +560,7 @@ Section Handlers.
      (block connect that sweeps, PruneGraphNodes, restart) has happened since. *)
   Inductive event :=
   | EMsg (now peer : N) (m : msg)
+  | EApply (now : N) (u : chan_upd)       (* Builder.ApplyChannelUpdate *)
   | EOp (o : gop)
   | ERestart.
 
@@ -549,6 +569,7 @@ Section Handlers.
     let (st, dirty) := sd in
     match e with
     | EMsg now peer m => (fst (step now peer i st m), dirty)
+    | EApply now u => (fst (apply_chan_upd now st u), dirty)
     | EOp o =>
       (apply_op sweep_always (c_own cfg) st o,
        if op_sweeps sweep_always st o then false else dirty || is_unswept_removal o)
@@ -562,3 +583,29 @@ Section Handlers.
     | e :: r => run_events sweep_always (ev_step sweep_always i sd e) (i + 1) r
     end.
 End Handlers.
+
+(* ---- concurrent updates of ONE policy slot (one channel direction).  Every
+   update k with timestamp [ts k] performs a CHECK (Builder.updateEdge compares
+   with the stored timestamp: strictly newer?) and, if it passed, a WRITE
+   (Graph.UpdateEdgePolicy).  A schedule is an interleaving of these events.
+   [cw_log] records (timestamp held by the store, timestamp written). ---- *)
+Inductive cw := CwCheck (k : nat) | CwWrite (k : nat).
+
+Record cwst := mkCw { cw_store : N; cw_passed : list nat; cw_log : list (N * N) }.
+
+Definition cw_step (ts : nat -> N) (s : cwst) (e : cw) : cwst :=
+  match e with
+  | CwCheck k =>
+    if N.ltb (cw_store s) (ts k) then mkCw (cw_store s) (k :: cw_passed s) (cw_log s) else s
+  | CwWrite k =>
+    if existsb (Nat.eqb k) (cw_passed s)
+    then mkCw (ts k) (filter (fun j => negb (Nat.eqb k j)) (cw_passed s))
+              (cw_log s ++ [(cw_store s, ts k)])
+    else s
+  end.
+
+Definition cw_run (ts : nat -> N) (s : cwst) (l : list cw) : cwst := fold_left (cw_step ts) l s.
+
+(* under the per-channel mutex check and write of one update are adjacent *)
+Definition atomic_schedule (ks : list nat) : list cw :=
+  flat_map (fun k => [CwCheck k; CwWrite k]) ks.
